@@ -1,7 +1,7 @@
 (* C10 — proofs: half space of reciprocal points; the reciprocal-space sums are pair sums of cos(G.(x_i - x_j));
    self + background constants of the generated model. *)
 From Coq Require Import ZArith List Bool Lia Reals Lra.
-From PyQMC Require Import C10.Model gen.Energy_Gen.
+From PyQMC Require Import base.Einsum C10.Model gen.Energy_Gen.
 Import ListNotations.
 
 (* ---------- half space ---------- *)
@@ -121,3 +121,7 @@ Theorem energy_parts_add_the_constants ne S1 S2 V alpha P ees eis iis :
 Proof. repeat split; reflexivity. Qed.
 Theorem total_is_sum ke ee ei ecp ii : acc_total ke ee ei ecp ii = acc_ke ke + acc_ee ee + acc_ei ei + acc_ecp ecp + ii.
 Proof. unfold acc_total, acc_ke, acc_ee, acc_ei, acc_ecp. ring. Qed.
+
+(* ---------- einsum contractions of ewald.py: every one pairs axes of the same meaning ---------- *)
+Lemma ewald3d_sites_typed : forallb site_typed ewald3d_sites = true /\ (5 <=? length ewald3d_sites)%nat = true.
+Proof. split; vm_compute; reflexivity. Qed.
